@@ -267,7 +267,7 @@ func TestC07(t *testing.T) {
 	run := ev.Start(t, "C07", "exploration",
 		"PRNG histories of 40-80 symbolic ops over 4-6 keys on a real disk.Store (capacity 7..4096 B, shard length 0-2, "+
 			"reboot_incomplete_blobs on/off, five op-mix profiles); sizes resolved against the model at run time (0, free, free+1, "+
-			"capacity, capacity+1, evict-exactly-one, evict-everything(+1), random). A history is non-trivial when it contained "+
+			"capacity, capacity+1, evict-exactly-one, evict-everything(+1), random); fresh blobs written front to back, tail-only or tail-then-head, gaps read as zeros. A history is non-trivial when it contained "+
 			">=1 LRU eviction and >=1 of {scope-hidden call, non-movable metadata dropped at completion, Clean deletion, refused Create, "+
 			"injected create fault}; distinct = distinct (config, op list).")
 	defer run.Finish()
@@ -355,6 +355,7 @@ func oneHistory(t *testing.T, run *ev.Run, base string, i int) {
 	run.Count("nonmovable_md_dropped_at_completion", int64(d.MDDrops))
 	run.Count("refused_creates", int64(d.FailedCreates))
 	run.Count("injected_create_faults", int64(d.Faults))
+	run.Count("writes_leaving_unwritten_gap", int64(d.Gaps))
 	run.Distinct("configs", fmt.Sprintf("%d/%d/%v/%d", cfg.Capacity, cfg.Shard, cfg.Reboot, cfg.Profile))
 	if run.WantSample() && i%397 == 0 {
 		tr := d.Trace
